@@ -3,6 +3,11 @@ per-logic overrides are interpreted from source on concrete families of truth va
 contracts: value_of on immediate parts (given values = induction hypothesis), truth_function = spec table (C07),
 maxceil/minfloor = max/min in the numeric order of the value enum (proved for _limit_best in C08.limit_best.*)."""
 from __future__ import annotations
+
+def _new_private(model, name):
+    "a private helper the model has no contract for (e.g. extracted by a refactoring): interpreted from source"
+    from pyvc.interp import is_private_name
+    return is_private_name(name) and name not in getattr(model, 'NO_INLINE', ())
 import types
 from pyvc import source
 from pyvc.interp import SymVal, Outside, PyExc, Contract, BoundSource, GenList
@@ -81,7 +86,7 @@ class EvalModel(SymVal):
         for c in self.cls.__mro__:
             if name in c.__dict__:
                 v = c.__dict__[name]
-                if isinstance(v, types.FunctionType) and name in self.INLINE:
+                if isinstance(v, types.FunctionType) and (name in self.INLINE or _new_private(self, name)):
                     if name in ('_unquantify_values', '_unmodal_values') and c.__module__ == 'pytableaux.models':
                         return Contract(lambda it, s, **kw: (self.kw_seen.append((name, dict(kw))), GenList(self.family))[1], f'BaseModel.{name} (values of the instances)')
                     fi = source.of_function(v); self.inlined[fi.key] = fi
@@ -95,7 +100,7 @@ class EvalModel(SymVal):
                 v = c.__dict__[name]
                 if name in ('_unquantify_values', '_unmodal_values') and c.__module__ == 'pytableaux.models':
                     return Contract(lambda it, s, **kw: (self.kw_seen.append((name, dict(kw))), GenList(self.family))[1], f'BaseModel.{name} (values of the instances)')
-                if isinstance(v, types.FunctionType) and name in self.INLINE:
+                if isinstance(v, types.FunctionType) and (name in self.INLINE or _new_private(self, name)):
                     fi = source.of_function(v); self.inlined[fi.key] = fi
                     return BoundSource(fi, v, c, self)
                 raise Outside(f'super().{name}')
